@@ -187,6 +187,14 @@ class Session:
                     self.ra.iterappend(rest)
                 if st['mode'] != cmode:
                     self.ra.accessmode = st['mode']
+                # the README of a state inside a context records how it was reached (which maps were open when it
+                # was last written); if this construction does not reproduce it, the state is left to the path tours
+                want = expected_view(st).get('treadme')
+                got = self.observe(reads=False).get('treadme')
+                if want is not None and got != want:
+                    raise Skip('README of a state inside a context depends on its history: reached by paths only')
+        except Skip:
+            raise
         except Exception as e:
             from .arraymodel import ImplFailure
             raise ImplFailure('creating a ragged array of %d subarrays (%s, index %s) failed: %r'
